@@ -103,6 +103,14 @@ class Builder(object):
         from .values import Opaque
         return Opaque(name)
 
+    def optobj(self, name, obj):
+        from .values import OptObj
+        return OptObj(self.ctx.bool(name + ".isnone"), obj)
+
+    def lazy(self, name, alternatives):
+        from .values import Lazy
+        return Lazy(self.ctx, name, alternatives)
+
     def script(self, name):
         """A configured enter/exit script: non-empty list of strings of symbolic length."""
         import z3 as _z3
@@ -112,8 +120,24 @@ class Builder(object):
         arr = _z3.Array(self.ctx.fresh_name(name + ".lines"), _z3.IntSort(), _z3.StringSort())
         return SymSeq(n, lambda k: _z3.Select(arr, k), name=name)
 
+    def realseq(self, name, even=False, min_len=0):
+        import z3 as _z3
+        from .values import SymSeq
+        n = self.ctx.int(name + ".len")
+        self.ctx.assume(n >= min_len)
+        if even:
+            self.ctx.assume(n % 2 == 0)
+        arr = _z3.Array(self.ctx.fresh_name(name + ".items"), _z3.IntSort(), _z3.RealSort())
+        seq = SymSeq(n, lambda k: _z3.Select(arr, k), name=name)
+        self.ctx.symbols[name] = _SeqModelReader(n, arr)
+        return seq
+
     def set_current_user(self, anonymous):
         self.ctx.ghost["anonymous"] = anonymous
+
+    def ordmap(self, name):
+        from .ordmap import OrdMap
+        return OrdMap.symbolic(self.ctx, name)
 
     def plugin_manager(self):
         from .framework import PluginManager
@@ -122,6 +146,16 @@ class Builder(object):
     def comm(self, streaming):
         from .framework import Comm
         return Comm(streaming)
+
+
+class _SeqModelReader(object):
+    def __init__(self, n, arr):
+        self.n, self.arr = n, arr
+
+    def model_value(self, m):
+        n = m.eval(self.n, model_completion=True).as_long()
+        return {"realseq": [model_value(m.eval(z3.Select(self.arr, z3.IntVal(i)), model_completion=True))
+                            for i in range(min(n, 12))], "len": n}
 
 
 def make_interp(program, ctx, registry, top=None, externals=None):
@@ -218,13 +252,15 @@ class PathOutcome(object):
     pass
 
 
-def run_contract_paths(program, registry, con, active_cases=None):
+def run_contract_paths(program, registry, con, active_cases=None, prefix=None, frontier_depth=None):
     """Explore all paths of the function under its contract.  Returns (paths, engine, interps)."""
     finfo = program.func(con.qualname)
-    engine = Engine()
+    engine = Engine(frontier_depth=frontier_depth)
     info = {"edges": set(), "executed": set(), "used_contracts": set(), "assumed": set()}
 
     def thunk(ctx):
+        del ops.APPLICATIONS[:]
+        ctx.opaque_apps = ops.APPLICATIONS
         interp = make_interp(program, ctx, registry, top=con.qualname)
         interp.force_inline = set(con.inline_callees)
         b = Builder(ctx, interp)
@@ -353,8 +389,26 @@ def run_contract_paths(program, registry, con, active_cases=None):
                 ctx.oblige("%s/frame:%s.%s" % (con.qualname, _objname(f, cont), key), _b(struct_eq(cur, was)),
                            kind="frame", assume_after=False)
 
-    paths = engine.run(thunk)
+    def wrapped(ctx):
+        try:
+            thunk(ctx)
+        finally:
+            ctx.opaque_apps = list(ops.APPLICATIONS)
+    paths = engine.run(wrapped, start=prefix)
+    if frontier_depth is not None:
+        # complete paths shorter than the frontier are their own sub-trees
+        for p in paths:
+            engine.frontier.append(list(p.script[:p.pos]))
     return paths, engine, info
+
+
+def compute_frontier(program, registry, con, depth):
+    paths, engine, info = run_contract_paths(program, registry, con, frontier_depth=depth)
+    seen = []
+    for pre in engine.frontier:
+        if pre not in seen:
+            seen.append(pre)
+    return seen
 
 
 def _oldframe(f):
@@ -407,6 +461,42 @@ class Verdict(object):
         self.reason = reason
 
 
+class IncrementalPathSolver(object):
+    """One solver per path: the path condition is asserted incrementally, each goal is checked under push/pop.
+    Anything the fast incremental check cannot decide goes through the full strategy of solve_obligation."""
+
+    def __init__(self, timeout_ms):
+        self.s = z3.Solver()
+        self.s.set("timeout", 400)
+        self.npc = 0
+        self.timeout_ms = timeout_ms
+
+    def solve(self, ob):
+        t0 = time.time()
+        c = as_const_bool(ob.goal)
+        if c is True:
+            return Verdict(ob, "discharged", "trivial", 0.0)
+        for pcond in ob.pc[self.npc:]:
+            self.s.add(pcond)
+        self.npc = max(self.npc, len(ob.pc))
+        if len(ob.pc) < self.npc:
+            return solve_obligation(ob, ob.symbols, self.timeout_ms)   # not a prefix (should not happen)
+        self.s.push()
+        self.s.add(z3.Not(ob.goal))
+        r = self.s.check()
+        if r == z3.unsat:
+            self.s.pop()
+            return Verdict(ob, "discharged", "z3", time.time() - t0)
+        if r == z3.sat:
+            m = self.s.model()
+            vals = extract_model(m, ob.symbols)
+            self.s.pop()
+            fm = faithful_model(ob)
+            return Verdict(ob, "refuted", "z3", time.time() - t0, model=fm if fm is not None else vals)
+        self.s.pop()
+        return solve_obligation(ob, ob.symbols, self.timeout_ms)
+
+
 def _check(solver, timeout_ms):
     solver.set("timeout", timeout_ms)
     return solver.check()
@@ -453,18 +543,9 @@ def solve_obligation(ob, symbols, timeout_ms=None):
         return Verdict(ob, "unknown", "z3+cvc5", time.time() - t0, reason=str(s.reason_unknown()))
     if r == z3.unsat:
         return Verdict(ob, "discharged", backend, time.time() - t0)
-    m = s.model()
-    vals = {}
-    for name, sym in symbols.items():
-        try:
-            if hasattr(sym, "model_value"):
-                vals[name] = sym.model_value(m)
-                continue
-            v = m.eval(sym, model_completion=True)
-            vals[name] = model_value(v)
-        except z3.Z3Exception:
-            pass
-    return Verdict(ob, "refuted", backend, time.time() - t0, model=vals)
+    vals = extract_model(s.model(), symbols)
+    fm = faithful_model(ob)
+    return Verdict(ob, "refuted", backend, time.time() - t0, model=fm if fm is not None else vals)
 
 
 def has_quantifier(e, memo=None):
@@ -538,6 +619,47 @@ def find_candidate(ob, symbols, timeout_ms):
         return None
 
 
+def faithful_model(ob, timeout_ms=4000):
+    """Counter-model in which the opaque spec functions have their defined meaning (for native replay):
+    the definitional equations of every opaque application on the path are added, the formula is skolemised,
+    remaining universals are instantiated on small indices and symbolic lists are bounded to length <= 3."""
+    apps = ob.meta.get("opaque_apps") or []
+    if not apps:
+        return None
+    try:
+        extra = []
+        seen = set()
+        for (fn, args) in apps:
+            eqn = fn.reveal(*args)
+            if ops.is_sym(eqn) and eqn.get_id() not in seen:
+                seen.add(eqn.get_id())
+                extra.append(eqn)
+        return _bounded_model(list(ob.pc) + extra + [z3.Not(ob.goal)], ob.symbols, timeout_ms)
+    except z3.Z3Exception:
+        return None
+
+
+def _bounded_model(formulas, symbols, timeout_ms):
+    g = z3.Goal()
+    g.add(z3.And(*formulas))
+    nnf = z3.Tactic("nnf")(g)
+    parts = []
+    for sub in nnf:
+        for c in sub:
+            gc = ground_universals(c, list(range(-1, 5)))
+            if gc is not None:
+                parts.append(gc)
+    s = z3.Solver()
+    s.set("timeout", timeout_ms)
+    s.add(*parts)
+    for name, sym in symbols.items():
+        if hasattr(sym, "arrays"):
+            s.add(sym.arrays.n <= 3)
+    if s.check() != z3.sat:
+        return None
+    return extract_model(s.model(), symbols)
+
+
 def extract_model(m, symbols):
     vals = {}
     for name, sym in symbols.items():
@@ -607,7 +729,7 @@ def dedupe(obligations):
     return out
 
 
-def verify_contract(program, registry, con, timeout_ms=None, active_cases=None):
+def verify_contract(program, registry, con, timeout_ms=None, active_cases=None, prefix=None):
     """Returns a JSON-able result dict for one function."""
     t0 = time.time()
     res = {"function": con.qualname, "status": "ok", "obligations": [], "paths": 0, "error": None}
@@ -615,7 +737,7 @@ def verify_contract(program, registry, con, timeout_ms=None, active_cases=None):
         finfo = program.func(con.qualname)
         res["lines"] = list(finfo.lines)
         res["file"] = finfo.module.path
-        paths, engine, info = run_contract_paths(program, registry, con, active_cases)
+        paths, engine, info = run_contract_paths(program, registry, con, active_cases, prefix=prefix)
     except Unsupported as u:
         res["status"] = "unsupported"
         res["error"] = "%s (%s)" % (u, u.where or getattr(u.node, "lineno", "?"))
@@ -645,31 +767,36 @@ def verify_contract(program, registry, con, timeout_ms=None, active_cases=None):
                 s.add(c)
             covers[name] = (s.check() != z3.unsat)
     res["covers"] = covers
-    obs = []
+    solver_s = 0.0
+    seen_keys = set()
     for p in paths:
+        if not p.obligations:
+            continue
+        inc = IncrementalPathSolver(timeout_ms or QUICK_TIMEOUT_MS)
         for ob in p.obligations:
             ob.symbols = p.symbols
             ob.choices = getattr(p, "meta_choices", [])
-            obs.append(ob)
-    obs = dedupe(obs)
-    solver_s = 0.0
-    for ob in obs:
-        v = solve_obligation(ob, ob.symbols, timeout_ms)
-        solver_s += v.secs
-        rec = {"name": ob.name, "kind": ob.kind, "status": v.status, "backend": v.backend,
-               "secs": round(v.secs, 4), "props": ob.meta.get("props", []), "path": ob.path}
-        if ob.meta.get("in"):
-            rec["in"] = ob.meta["in"]
-        if ob.meta.get("expected"):
-            rec["expected"] = ob.meta["expected"]
-            rec["case"] = ob.meta.get("case")
-        if v.status in ("refuted", "candidate"):
-            rec["model"] = v.model
-            rec["choices"] = ob.choices
-            rec["goal"] = ob.goal.sexpr()[:2000]
-        if v.status in ("unknown", "candidate"):
-            rec["reason"] = v.reason
-        res["obligations"].append(rec)
+            ob.meta["opaque_apps"] = getattr(p, "opaque_apps", [])
+            key = (ob.name, tuple(c.get_id() for c in ob.pc), ob.goal.get_id())
+            if key in seen_keys:
+                continue
+            seen_keys.add(key)
+            v = inc.solve(ob)
+            solver_s += v.secs
+            rec = {"name": ob.name, "kind": ob.kind, "status": v.status, "backend": v.backend,
+                   "secs": round(v.secs, 4), "props": ob.meta.get("props", []), "path": ob.path}
+            if ob.meta.get("in"):
+                rec["in"] = ob.meta["in"]
+            if ob.meta.get("expected"):
+                rec["expected"] = ob.meta["expected"]
+                rec["case"] = ob.meta.get("case")
+            if v.status in ("refuted", "candidate"):
+                rec["model"] = v.model
+                rec["choices"] = ob.choices
+                rec["goal"] = ob.goal.sexpr()[:2000]
+            if v.status in ("unknown", "candidate"):
+                rec["reason"] = v.reason
+            res["obligations"].append(rec)
     res["solver_s"] = round(solver_s, 3)
     res["wall_s"] = round(time.time() - t0, 3)
     return res
